@@ -1,7 +1,7 @@
 (* Dispatcher used by the correspondence check: the model's answer for one case line.
    Function codes are assigned in driver/fncodes.py (single source of the numbering). *)
 From Coq Require Import NArith List Bool.
-From RQ Require Import Base.Outcome Base.Ints Base.ListX Gen.Consts Spec.GF256 Spec.Wire Spec.Oti Spec.Rand Spec.Tuple Spec.Prime Spec.Derive Model.Params Model.Octet Model.Wire Model.Oti Model.Cache Model.SysConst Model.Tuple Model.RunCodec Model.RunKern Model.RunMat Model.PiSolver.
+From RQ Require Import Base.Outcome Base.Ints Base.ListX Gen.Consts Spec.GF256 Spec.Wire Spec.Oti Spec.Rand Spec.Tuple Spec.Prime Spec.Tables_RFC Spec.Derive Model.Params Model.Octet Model.Wire Model.Oti Model.Cache Model.SysConst Model.Tuple Model.RunCodec Model.RunKern Model.RunMat Model.PiSolver.
 Import ListNotations.
 Open Scope N_scope.
 
@@ -93,6 +93,7 @@ Definition run_codec (f : N) (a : list N) : list N :=
   | 253 => run_check_intermediate a
   | 254 => run_check_intermediate_rfc a
   | 255 => run_check_rows_rfc a
+  | 256 => run_spec_enc_from_C a
   | 208 => run_cm_rows Release a
   | 218 => run_cm_rows Checked a
   | 251 => run_spec_layout_packets a
@@ -138,6 +139,10 @@ Definition run_tuple (f : N) (a : list N) : list N :=
   | 351 => enc_t6 (Ok (Tuple (arg a 2) (arg a 1) (arg a 3) (arg a 0)))
   | 352 => [1; if is_prime (arg a 0) then 1 else 0]
   (* [J; X0; n] -> v = Rand[y(X),0,2^20] for X = X0 .. X0+n-1 (to find tuples at degree-table boundaries) *)
+  (* RFC snapshot row selected by K: K' J S H W ; Deg of the Spec *)
+  | 355 => match find (fun r => let '(k, _, _, _, _) := r in arg a 0 <=? k) Spec.Tables_RFC.RFC_TABLE2 with
+           | Some (k, j, s, h, w) => [1; k; j; s; h; w] | None => [0; 0] end
+  | 356 => [1; Spec.Tuple.Deg (arg a 0) (arg a 1)]
   | 354 => 1 :: map (fun i => Rand (Tuple_y (arg a 0) (arg a 1 + i)) 0 (2 ^ 20)) (rangeN (N.to_nat (arg a 2)))
   | _ => [0; 99]
   end.
